@@ -93,6 +93,13 @@ def ofSel (j : Json) : Except String (Option (String × String)) :=
     | _ => throw "bad selector"
   | .error _ => pure none
 
+/-- `source=`: absent / null = this suite; else the tables of the source profile (same schema) -/
+def ofSrc (j : Json) : Except String (Option Suite) :=
+  match j.getObjVal? "src" with
+  | .ok (Json.null) => pure none
+  | .ok v => do pure (some (← (← v.getArr?).toList.mapM ofTable))
+  | .error _ => pure none
+
 /-- one step of a history on the suite -/
 def doStep1 (sch : Schema) (s : Suite) (j : Json) : Except String (Suite × Option Err) := do
   let k ← getStr j "k"
@@ -125,7 +132,7 @@ def doStep1 (sch : Schema) (s : Suite) (j : Json) : Except String (Suite × Opti
     let b ← getInt j "b"
     let g ← getBool j "gz"
     let script ← (← getArr j "script").mapM ofResp
-    pure (processM sch s b g script (← ofSel j))
+    pure (processM sch s b g script (← ofSel j) (← ofSrc j))
   | _ =>
     let ti ← getNat j "t"
     let op : Op ← match k with
@@ -202,7 +209,7 @@ def doStepC1 (cd : Codec) (sch : Schema) (now : Nat) (cs : CSuite) (j : Json) :
     let b ← getInt j "b"
     let g ← getBool j "gz"
     let script ← (← getArr j "script").mapM ofResp
-    pure (processC cd sch now cs b g script (← ofSel j))
+    pure (processC cd sch now cs b g script (← ofSel j) (← ofSrc j))
   | _ =>
     let ti ← getNat j "t"
     let op : Op ← match k with
@@ -241,15 +248,26 @@ def obsRel (ct : CT) (t : Option T) : Json :=
 
 /-- one step; `fcommit`: a fresh TestSuite (it sees the committed relations) edits one table and commits,
 then this suite reloads / is re-opened (an operation that raises over there is skipped) -/
-def doStep (sch : Schema) (s : Suite) (j : Json) : Except String (Suite × Option Err) := do
+def doStep (sch : Schema) (s : Suite) (nls : List Bool) (j : Json) :
+    Except String ((Suite × Option Err) × List Bool) := do
   match getStr j "k" with
+  | .ok "commit" => pure (commitAllNl s nls, nlAfterCommit s nls)
+  | .ok "process" =>
+    -- (the flushes and the final write_database terminate every line they write)
+    let r ← doStep1 sch s j
+    pure (r, if r.2.isNone then nls.map (fun _ => true) else nls)
   | .ok "fcommit" =>
     let subs ← getArr j "ops"
-    let s1 ← subs.foldlM (fun acc sub => do
+    -- suite B is opened on the directory, edits, commits; suite A (this one, whatever its state) then sees
+    -- B's files (`adoptFiles`) and reloads / is re-opened (theorem `reload_after_foreign_commit`)
+    let b1 ← subs.foldlM (fun acc sub => do
       let (acc', _) ← doStep1 sch acc sub
-      pure acc') (reloadAll s)
-    pure (commitAll s1)
-  | _ => doStep1 sch s j
+      pure acc') (freshSuite s)
+    let (b', e) := commitAllNl b1 nls
+    match e with
+    | some err => pure ((adoptFiles b' s, some err), nlAfterCommit b1 nls)
+    | none => pure ((reloadAll (adoptFiles b' s), none), nlAfterCommit b1 nls)
+  | _ => do pure (← doStep1 sch s j, nls)
 
 def intRange (lo hi : Int) : List Int :=
   (List.range (hi - lo + 1).toNat).map (fun (k : Nat) => lo + (k : Int))
@@ -299,7 +317,7 @@ def phasesOf (sch : Schema) (s : Suite) (j : Json) : Except String Json := do
   | .ok "process" =>
     let b ← getInt j "b"
     let script ← (← getArr j "script").mapM ofResp
-    pure (jList obsPhase (processPhases sch s b script (← ofSel j)))
+    pure (jList obsPhase (processPhases sch s b script (← ofSel j) (← ofSrc j)))
   | _ => pure Json.null
 
 /-- an iterator obtained (and advanced once) before a table operation and consumed after it -/
@@ -315,7 +333,7 @@ def heldOf (s s' : Suite) (j : Json) : Json :=
 def callsOf (sch : Schema) (s : Suite) (e : Option Err) (j : Json) : Except String Json := do
   match getStr j "k", e with
   | .ok "process", none =>
-    match processCalls sch s (← ofSel j) with
+    match processCalls sch s (← ofSel j) (← ofSrc j) with
     | .ok cs => pure (jList (fun c => Json.arr #[jNat c.1, jList (fun p => Json.arr #[Json.str p.1, jNat p.2]) c.2]) cs)
     | .error _ => pure Json.null
   | _, _ => pure Json.null
@@ -325,17 +343,17 @@ def obsC (cs : CSuite) (s : Suite) (e : Option Err) (ot : List Nat) : Json :=
     | some ct => obsRel ct s[k]?
     | none => Json.null) ot)]
 
-def runSteps (cd : Codec) (sch : Schema) : Suite → CSuite → Nat → List Json → Except String (List Json)
-  | _, _, _, [] => pure []
-  | s, cs, now, j :: js => do
-    let (s', e) ← doStep sch s j
+def runSteps (cd : Codec) (sch : Schema) : Suite → List Bool → CSuite → Nat → List Json → Except String (List Json)
+  | _, _, _, _, [] => pure []
+  | s, nls, cs, now, j :: js => do
+    let ((s', e), nls') ← doStep sch s nls j
     let ((cs', now'), ec) ← doStepC cd sch now cs j
     let qs := match getArr j "qs" with | .ok l => l | .error _ => []
     let o ← obs s' e (getNats j "ot") qs
     let ph ← phasesOf sch s j
     let o := (o.setObjVal! "P" ph).setObjVal! "R" (obsC cs' s' ec (getNats j "ot"))
     let o := (o.setObjVal! "held" (heldOf s s' j)).setObjVal! "calls" (← callsOf sch s e j)
-    let rest ← runSteps cd sch s' cs' now' js
+    let rest ← runSteps cd sch s' nls' cs' now' js
     pure (o :: rest)
 
 def handle (j : Json) : Except String Json := do
@@ -349,7 +367,8 @@ def handle (j : Json) : Except String Json := do
   let init ← obs tables none (List.range tables.length) []
   let init := (init.setObjVal! "P" Json.null).setObjVal! "R" (obsC cs tables none (List.range tables.length))
   let init := (init.setObjVal! "held" Json.null).setObjVal! "calls" Json.null
-  let rest ← runSteps cd sch tables cs 10 steps
+  let nls := (← getArr j "tables").map (fun t => match getBool t "nl" with | .ok b => b | .error _ => true)
+  let rest ← runSteps cd sch tables nls cs 10 steps
   pure (Json.arr (init :: rest).toArray)
 
 end Verif.C10.Driver
